@@ -151,6 +151,15 @@ def mk_quat_ops():
     ops["OLEQ.NED[weights]"] = (amrow, s_w, b_w, "oleq")
     ops["Complementary.am_estimation"] = (amrow, lambda r: F.Complementary().am_estimation(r[0], r[1]), lambda rs: F.Complementary().am_estimation(A(rs), M(rs)), "exact")
     ops["Complementary.am_estimation.acc-only"] = (amrow, lambda r: F.Complementary().am_estimation(r[0]), lambda rs: F.Complementary().am_estimation(A(rs)), "exact")
+    # ---- every option left to its default on BOTH paths (the constructor's defaults and estimate()'s are the same options)
+    ops["FLAE[defaults]"] = (amrow, lambda r: F.FLAE().estimate(r[0], r[1]), lambda rs: F.FLAE(A(rs), M(rs)).Q, "exact")
+    ops["QUEST[defaults]"] = (amrow, lambda r: F.QUEST().estimate(r[0], r[1]), lambda rs: F.QUEST(A(rs), M(rs)).Q, "exact")
+    ops["Davenport[defaults]"] = (amrow, lambda r: F.Davenport().estimate(r[0], r[1]), lambda rs: F.Davenport(A(rs), M(rs)).Q, "sign")
+    ops["FQA[defaults]"] = (amrow, lambda r: F.FQA().estimate(r[0], r[1]), lambda rs: F.FQA(A(rs), M(rs)).Q, "exact")
+    ops["TRIAD[defaults]"] = (amrow, lambda r: F.TRIAD().estimate(r[0], r[1]), lambda rs: F.TRIAD(A(rs), M(rs)).A, "exact")
+    # ---- attributes an N-sample object publishes next to Q: the same attitudes in another representation
+    ops["Tilt.angles-attribute"] = (amrow, lambda r: F.Tilt().estimate(r[0], r[1], representation="angles"),
+                                    lambda rs: (lambda o: (o.Q, o.angles)[1])(F.Tilt(A(rs), M(rs))), "exact")
     # ---- frame helpers offered for one point and for N points
     from ahrs.common import frames as FR
     ops["ned2enu"] = (lambda c: amrow(c)[0], lambda r: FR.ned2enu(r.copy()), lambda rs: FR.ned2enu(stack(rs)), "exact")
